@@ -320,7 +320,10 @@ fn run_subnets(addr_set: u64, trace: bool) -> CaseResult {
 
 // ---------------------------------------------------------------- removal / disabling on the browsing side
 
-fn run_removal(ev: u64, both_learned: bool, trace: bool) -> CaseResult {
+fn run_removal(ev: u64, learned: u64, trace: bool) -> CaseResult {
+    // learned: 0 the shared instance's host has one address, 1 a second one learned on sim1,
+    // 2 the same with capital letters in the host name (SRV target)
+    let both_learned = learned >= 1;
     // ev: 0 sim1 gone, 1 sim1 gone then back, 2 disable sim1 by name, 3 disable IPv4 everywhere,
     //     4 disable IndexV4(sim1), 5 address of sim1 replaced by another subnet,
     //     6 IPv6 disabled from the start, then sim1 loses its IPv4 address and keeps the IPv6 one
@@ -345,7 +348,7 @@ fn run_removal(ev: u64, both_learned: bool, trace: bool) -> CaseResult {
     w.poke(0);
     // instance A learned only on sim1; instance B on sim0 (and, if both_learned, its address on sim1 too)
     let ia = Inst::simple("onlyone", "h1", [10, 0, 1, 9]);
-    let ib = Inst::simple("shared", "h2", [10, 0, 0, 9]);
+    let ib = Inst::simple("shared", if learned == 2 { "Host-Two" } else { "h2" }, [10, 0, 0, 9]);
     w.deliver(0, IF1, PEER1, build(&response(ia.all(4500))));
     w.deliver(0, IF0, PEER0, build(&response(ib.all(4500))));
     if both_learned {
@@ -885,9 +888,9 @@ pub fn check(tier: &str) -> i32 {
     let rem = FnPart {
         name: "interface-removal-and-disabling".into(),
         rule: "browse + hostname resolver; one instance learned only on sim1, one on sim0 (optionally with a second address learned on sim1); then sim1 disappears / disappears and returns / is disabled by name / IPv4 is disabled / IndexV4 is disabled / its address moves to another subnet / (IPv6 disabled from the start) it loses its IPv4 address and keeps the IPv6 one / both interfaces disappear between two checks (every instance must be reported removed)".into(),
-        n: 16,
-        describe: Box::new(|i| format!("event {} both_learned {}", i % 8, i / 8 == 1)),
-        run: Box::new(|i, tr| run_removal(i % 8, i / 8 == 1, tr)),
+        n: 24,
+        describe: Box::new(|i| format!("event {} shared instance {}", i % 8, ["one address", "a second address learned on sim1", "a second address learned on sim1, host name with capitals"][(i / 8) as usize])),
+        run: Box::new(|i, tr| run_removal(i % 8, i / 8, tr)),
     };
     rep.run_part(&rem, Duration::from_secs(120));
     let ddims = [3u64, 2, 3, DC_EVENTS.len() as u64];
